@@ -161,6 +161,17 @@ impl DocumentBlock {
         }
     }
 
+    /// Whether text that follows this block inside a tight list item continues it. After a code
+    /// block or a rule the text is a paragraph of its own.
+    fn takes_inlines(&self) -> bool {
+        match self {
+            DocumentBlock::CodeBlock(_) => false,
+            DocumentBlock::RawBlock(_) => false,
+            DocumentBlock::HorizontalRule(_) => false,
+            _ => true,
+        }
+    }
+
     pub fn append_inline(&mut self, inline: DocumentInline, line_range: LineRange) {
         match self {
             DocumentBlock::Plain(plain) => plain.inlines.push(inline),
@@ -180,7 +191,7 @@ impl DocumentBlock {
             DocumentBlock::OrderedList(list) => {
                 let item = list.items.last_mut().unwrap();
 
-                if item.is_empty() {
+                if item.last().map_or(true, |block| !block.takes_inlines()) {
                     item.push(DocumentBlock::Para(Para {
                         line_range: line_range.clone(),
                         inlines: Vec::new(),
@@ -192,7 +203,7 @@ impl DocumentBlock {
             DocumentBlock::BulletList(list) => {
                 let item = list.items.last_mut().unwrap();
 
-                if item.is_empty() {
+                if item.last().map_or(true, |block| !block.takes_inlines()) {
                     item.push(DocumentBlock::Para(Para {
                         line_range: line_range.clone(),
                         inlines: Vec::new(),
